@@ -219,10 +219,11 @@ def call_expr(t, ty, i):
         pre = "let t%d = val_as(%s); let r%d: Vec<&str> = t%d.iter().map(|s| s.as_str()).collect(); " % (i, a, i, i)
         return pre, {"Vec<String>": "t%d.clone()" % i, "Vec<&str>": "r%d.clone()" % i, "&[&str]": "&r%d" % i}[ty]
     if t == "v":
-        pre = "let t%d = val_to_value(%s); " % (i, a)
+        # the Rust `Value` *is* the variant: convert the payload, not the `V` wrapper
+        pre = "let t%d = val_to_value(val_v(%s)); " % (i, a)
         return pre, {
-            "OwnedValue": "OwnedValue::try_from(val_to_value(%s)).unwrap()" % a,
-            "Value<'_>": "val_to_value(%s)" % a,
+            "OwnedValue": "OwnedValue::try_from(val_to_value(val_v(%s))).unwrap()" % a,
+            "Value<'_>": "val_to_value(val_v(%s))" % a,
             "&Value<'_>": "&t%d" % i,
         }[ty]
     raise KeyError(t)
